@@ -48,7 +48,7 @@ def plan(tier, seed):
 def mandatory_bins(tier):
     b = ["blocks_" + "+".join(l) for l in GB.all_block_lists()]
     b += ["session_key_drawn", "all_blocks_wrap_the_mac_key", "pass_through_rewrite", "rewrite_known_blocks_same_key", "creations_without_key", "counting_rng",
-          "ecc_wrap", "ecc_rewrite_same_object", "ephemeral_points_distinct", "splice_accepted_when_keys_equal", "splice_body_under_first_key", "splice_body_under_second_key", "splice_triple"]
+          "ecc_wrap", "ecc_rewrite_same_object", "ephemeral_points_distinct", "splice_accepted_when_keys_equal", "splice_body_under_first_key", "splice_body_under_second_key", "splice_triple", "splice_partial_decryptor_set", "splice_unopened_block_between"]
     b += ["splice_%s_%s" % (a, c) for a in GB.KINDS for c in GB.KINDS if a != c]
     return b
 
@@ -340,6 +340,25 @@ def run_splice(ns, ctx, spec):
             blocks = [(GB.TAGS[s["kind"]], model_block(rng, s, k)) for s, k in zip(specs, keys)]
             binary = L.serialise_bec2(case.comps, kbody, blocks)
             text = L.text_of(case.comments, binary)
+            # partial decryptor sets: whenever the supplied decryptors open two blocks that wrap
+            # different keys the file must be rejected - also with an unopened block in between
+            if not equal and len(specs) >= 2:
+                nb = len(specs)
+                for m in range(1, (1 << nb) - 1):
+                    sub = frozenset(i for i in range(nb) if m >> i & 1)
+                    if len({keys[i] for i in sub}) < 2:
+                        continue
+                    for cm in (True, False):
+                        ctx.ev()
+                        ctx.bin("splice_partial_decryptor_set")
+                        if nb == 3 and sub == frozenset((0, 2)):
+                            ctx.bin("splice_unopened_block_between")
+                        try:
+                            r2 = B.Bec2File.read_file(io.StringIO(text), GB.read_encryptors(ns, specs, sub), cm)
+                            ctx.violation("file_whose_blocks_wrap_different_keys_accepted:partial_decryptor_set", {"kinds": kinds, "odd_block": odd, "decryptors_for": sorted(sub), "check_cmac": cm, "returned_key": r2.session_key}, rp)
+                        except Exception as e:
+                            ctx.exc(e)
+                        ctx.mon("reader_decision_on_splice")
             ctx.ev()
             ctx.distinct("splice", idx, equal)
             try:
